@@ -2,7 +2,8 @@
 
 Public surface (wired into vlib/props/c36.py and vlib/props/c26.py): `setup()`, `strategy(tier, bursts=False)`, `run_case(case) ->
 CaseResult`, `RULE`, `ASSUMPTIONS`, `RULE_BURSTS`, `ASSUMPTIONS_BURSTS`, `FLAGS`, `in_domain(case)`.  C36 uses `strategy(tier)` (one send
-per position, timing around the release); C26 uses `strategy(tier, bursts=True)` (CONCURRENT senders around the release / resume).
+per position, timing around the release); C26 uses `strategy(tier, bursts=True)` (CONCURRENT senders around the release / resume,
+and the death of the releasing replica with senders polling across the crash timeout).
 
 CASE FORMAT.  {"total": positions (= len(gaps) = len(work)), "idle_timeout", "gaps": [...], "work": [...], "workers", "wake",
 "release_takes", "ties"} plus two OPTIONAL keys (absent = the behaviour before they existed, every older replay keeps its meaning):
@@ -17,6 +18,17 @@ CASE FORMAT.  {"total": positions (= len(gaps) = len(work)), "idle_timeout", "ga
   * "io_yields": list of ints, a cyclic supply of event-loop yields spent at the entry and at the exit of every emulated
     lifecycle-lock call (begin_release / complete_release / try_begin_resume) and DBOS call (retrieve / get_result / delete).
     Absent or empty: those calls never suspend.  Only admitted with FLAGS["resume_not_atomic"] (see below).
+
+  * "crash" (C26 bursts only): {"release": k, "delay": [d_0, ...]} -- RELEASER CRASH.  The replica that started release number k (0-based
+    count of granted begin_release calls; the strategy picks the release that precedes the mandatory burst) dies inside
+    `complete_release` after the generated `release_takes` and before the write commits: the calling task
+    (`_await_and_mark_released`) ends there with CancelledError, the row stays `releasing` with the instant of begin_release.  `delay`
+    is aligned with the `pre` of the burst that meets that release: task i makes its first call d_i virtual seconds after the burst
+    instant (number) or at the instant the stuck row is CRASH_TIMEOUT_SECONDS + x old ({"timeout": x}); then its `pre` yields.  In
+    such a case every send runs as a task under a watchdog: a sender still pending CRASH_GRACE (30 s) after the later of (row age =
+    crash timeout + 1 s, burst instant + 60 s) is cancelled and recorded with t_ret None -> `send_never_returned` (attributes
+    releaser_crashed, first_call_before_crash_timeout, polls_after_crash_timeout).  `crashed_release_never_taken_over`: all senders
+    returned but no `released` grant followed the crashed release.
 
 OBSERVERS for the C26 clauses (active for every case, quiet for the C36 family on the unchanged tree):
   * every `EmuBase.run_workflow` records how many earlier base runs of the id are still alive (task not done); the life spans of
@@ -144,6 +156,7 @@ RUN_ID = "run-c36-dbos"
 HANDLER_ID = "h1"
 EPS = 1.0 / 1024  # dyadic: exact in every clock epoch used here
 TOL = 1e-6
+CRASH_GRACE = 30.0  # "eventually" for a sender that meets a crashed release: this long after the crash timeout elapsed / after its own first call
 MARK_AFTER = 2.5  # the harness samples what a client sees this long after a run left memory (beyond the slowest release write + one poll)
 
 # Domain switches (see module docstring).  Environment overrides exist only for reproducing the excluded behaviour by hand
@@ -182,7 +195,18 @@ RULE_BURSTS = (
     "free, positions never go back; each step saw exactly the replies recorded before it); no send raises; per release at most one "
     "`released` grant and at most one _do_resume call before the next release, none before the first release; no base run is started "
     "while an earlier run of the id is alive and the control-loop life spans of the id never overlap. Non-trivial = the run completed "
-    "and a burst hit a releasing/released run or landed within 0.25 s before the deadline (or the C36 rule)."
+    "and a burst hit a releasing/released run or landed within 0.25 s before the deadline (or the C36 rule). "
+    "RELEASER CRASH (one in four of the cases whose mandatory burst follows a release): the replica that started that release dies after "
+    "the old run left memory and before its releasing->released write commits (the write never commits, the handler row is not stamped "
+    "idle, the row stays `releasing`); each sender of the burst makes its first call at its own generated instant: 0 / 0.25 s / 60 s after "
+    "the burst instant (the row is younger than idle_release.CRASH_TIMEOUT_SECONDS: the sender is in the 0.5 s poll loop when the timeout "
+    "elapses) or when the row is CRASH_TIMEOUT_SECONDS + {-0.25, -2^-10, 0, 2^-10, 0.25, 1} s old (first call on either side of the "
+    "timeout, also while other senders are polling); virtual time runs on beyond the timeout. Oracle in addition: every such send "
+    "returns -- a sender still pending 30 s after the row passed the crash timeout (and after the last arrival) is reported as "
+    "`send_never_returned` --, the stuck run is taken over (`crashed_release_never_taken_over` if all senders returned and nobody was "
+    "granted ownership) by exactly one resumer (the one-grant / one-_do_resume clause above), every reply is processed exactly once "
+    "and the run completes; the clauses about the lifecycle becoming `released` and the handler row carrying idle_since are not "
+    "applied to the one release whose releaser was killed."
 )
 ASSUMPTIONS_BURSTS = [
     "concurrent senders are tasks of one event loop (one process, one replica); their interleaving is the generated start order and the "
@@ -191,6 +215,14 @@ ASSUMPTIONS_BURSTS = [
     "resume is atomic with respect to other senders; with suspending calls (as with a database) a second sender that finds the row "
     "already `active` hands its event to the old, finished run while the first is still inside _do_resume -- event lost or send raises; "
     "reported (module docstring), not claimed",
+    "releaser crash = the decorator's background task _await_and_mark_released ends with CancelledError inside complete_release (not an "
+    "`Exception`: no handler of the repository code sees it, nothing after that point runs); crash point: after the old run ended with "
+    "IdleReleasedEvent (the DBOS workflow is finished, get_result returns), before the releasing->released write commits. A crash "
+    "between begin_release and the end of the old control loop is NOT generated (it needs DBOS's recovery of a pending workflow, which "
+    "is not emulated). The senders reach the same decorator object afterwards: at that crash point it holds no other in-process state "
+    "for the run (timer popped, control loop ended), which is what another / a restarted replica holds",
+    "the crash timeout is the value the decorator passes to try_begin_resume (read from idle_release.CRASH_TIMEOUT_SECONDS for placing "
+    "the senders); `eventually` for a sender behind a crashed release = within 30 virtual seconds after the stuck row passed it",
 ]
 ASSUMPTIONS = [
     "DBOS half runs the real DBOSIdleReleaseDecorator / EventInterceptorDecorator / TickPersistenceDecorator / MemoryWorkflowStore / control loop; "
@@ -288,12 +320,16 @@ def _build_classes() -> None:
     class MemLifecycle(life_mod.RunLifecycleLock):
         """In-memory lock with the documented state machine; every call is recorded with its virtual instant."""
 
-        def __init__(self, obs: dict, release_takes: float = 0.0, io: Any = None):
+        def __init__(self, obs: dict, release_takes: float = 0.0, io: Any = None, crash_release: int | None = None):
             self.state: dict[str, Any] = {}
             self.updated: dict[str, float] = {}
             self.obs = obs
             self.release_takes = release_takes  # virtual seconds the releasing->released write takes (every other call is instantaneous)
             self.io = io or _no_io  # event-loop yields around the atomic effect of a call (case["io_yields"], FLAGS["resume_not_atomic"])
+            # case["crash"]: the replica that started release number `crash_release` (0-based count of granted begin_release calls) dies
+            # while its releasing->released write is outstanding: the write never commits, the row stays `releasing`
+            self.crash_release = crash_release
+            self.begun = 0
 
         def _rec(self, op: str, run_id: str, res: Any) -> None:
             self.obs["lock"].append({"t": VClock.t, "op": op, "res": getattr(res, "value", res), "state": getattr(self.state.get(run_id), "value", None)})
@@ -311,6 +347,7 @@ def _build_classes() -> None:
             ok = self.state.get(run_id) == State.active
             if ok:
                 self._set(run_id, State.releasing)
+                self.begun += 1
             self._rec("begin_release", run_id, ok)
             await self.io()
             return ok
@@ -318,6 +355,14 @@ def _build_classes() -> None:
         async def complete_release(self, run_id: str) -> None:
             if self.release_takes:
                 await asyncio.sleep(self.release_takes)
+            if self.crash_release is not None and self.begun - 1 == self.crash_release and "crash" not in self.obs:
+                # RELEASER CRASH: the process dies here -- nothing after this point of the calling task runs (the write does not commit,
+                # the handler row is not stamped idle).  CancelledError ends the decorator's background task the way the death of the
+                # process does: it is not an `Exception`, so no handler of the repository code sees it.
+                self.obs["crash"] = {"t": VClock.t, "t_begin": self.updated.get(run_id), "release": self.crash_release,
+                                     "state": getattr(self.state.get(run_id), "value", None)}
+                self._rec("releaser_crashed", run_id, None)
+                raise asyncio.CancelledError()
             await self.io()
             ok = self.state.get(run_id) == State.releasing
             if ok:
@@ -668,9 +713,27 @@ def _burst_strategy(tier: str = "quick"):
         }
         if FLAGS["resume_not_atomic"]:
             c["io_yields"] = draw(st.sampled_from([[], [1], [0, 2], [2, 0, 1], [1, 3], [3, 1, 0, 2]]))
+        # RELEASER CRASH (drawn last: every draw above keeps its place): when the mandatory burst follows a release, one time in
+        # four the replica that started that release dies before its releasing->released write commits, and each sender of the burst
+        # arrives at its own generated instant on either side of the instant the stuck row becomes older than the crash timeout
+        if _reaches(near, I) and draw(st.integers(0, 3)) == 0:
+            c["crash"] = {
+                "release": sum(1 for g in gaps[:where] if _reaches(g, I)),  # the release that precedes the burst
+                "delay": [draw(st.sampled_from(CRASH_DELAYS)) for _ in burst[where]["pre"]],
+            }
         return c
 
     return case()
+
+
+def _reaches(gap, I: float) -> bool:
+    """The gap lasts beyond the release deadline: a release precedes the send."""
+    return gap in ("just_after", "after") or (isinstance(gap, (int, float)) and float(gap) > I)
+
+
+# when a sender of the burst that meets a crashed release makes its first call: a number = that many seconds after the instant of the
+# burst (the row is young: the sender polls), {"timeout": x} = at the instant the `releasing` row is CRASH_TIMEOUT_SECONDS + x old
+CRASH_DELAYS = [0, 0, 0.25, 60.0, 60.0, {"timeout": -0.25}, {"timeout": -EPS}, {"timeout": 0.0}, {"timeout": EPS}, {"timeout": 0.25}, {"timeout": 1.0}]
 
 
 def in_domain(case: dict) -> str | None:
@@ -704,6 +767,8 @@ def _horizon(case: dict) -> float:
     tot += sum(w * k for w, k in zip(case["work"], _layout(case)["size"])) * 2 + case["idle_timeout"] * (case["total"] + 2) + 2 * (float(case.get("release_takes", 0) or 0) + float(case.get("release_tick_write_takes", 0) or 0))
     if case.get("wake"):
         tot += 3 * case["wake"]["delay"]
+    if case.get("crash"):
+        return 60.0 + 10.0 * tot + float(M()["idle_mod"].CRASH_TIMEOUT_SECONDS) + 2 * CRASH_GRACE
     return 60.0 + 10.0 * tot
 
 
@@ -772,7 +837,9 @@ def _drive(case: dict) -> dict:
         store = _Store()
         io = _make_io(list(case.get("io_yields") or []))
         base = m["EmuBase"](store, obs, io)
-        lock = m["MemLifecycle"](obs, float(case.get("release_takes", 0) or 0), io)
+        crash = case.get("crash") or None
+        CT = float(m["idle_mod"].CRASH_TIMEOUT_SECONDS)
+        lock = m["MemLifecycle"](obs, float(case.get("release_takes", 0) or 0), io, crash_release=crash["release"] if crash else None)
         DBOS.retrieve_workflow_async = staticmethod(base.dbos_retrieve)
         DBOS.delete_workflow_async = staticmethod(base.dbos_delete)
         runtime = m["idle_mod"].DBOSIdleReleaseDecorator(
@@ -835,6 +902,8 @@ def _drive(case: dict) -> dict:
                     break
                 await mark(f"before_send{n}")
                 b = bursts[p] if p < len(bursts) else None
+                if crash and not b:
+                    b = {"pre": [0], "order": [0]}  # (crash cases: every send runs as a task under the watchdog below)
                 if not b:
                     ent = {"n": n, "t": VClock.t, "gap": gap, "quiet_for": VClock.t - last_activity(), "state_before": obs["marks"][-1]["state"], "error": None, "t_ret": None}
                     obs["sends"].append(ent)
@@ -856,7 +925,19 @@ def _drive(case: dict) -> dict:
                     ]
                     obs["sends"].extend(ents)
 
-                    async def one(ent, pre):
+                    t_burst = VClock.t
+                    # the burst meets the release whose releaser dies (has died or will die before its write commits)
+                    met_crash = bool(crash) and lock.begun - 1 == crash["release"] and lock.state.get(RUN_ID) == m["State"].releasing
+                    t_begin = lock.updated.get(RUN_ID, t_burst) if met_crash else t_burst
+
+                    async def one(ent, pre, delay=None):
+                        if delay:
+                            # (crash cases) this sender's first call: `delay` after the burst instant / when the stuck row has that age
+                            at = t_begin + CT + delay["timeout"] if isinstance(delay, dict) else t_burst + float(delay)
+                            if at > VClock.t:
+                                await asyncio.sleep(at - VClock.t)
+                                ent["t"] = VClock.t
+                                ent["state_before"] = getattr(lock.state.get(RUN_ID), "value", None)
                         for _ in range(pre):
                             await asyncio.sleep(0)
                         ent["state_at_send"] = getattr(lock.state.get(RUN_ID), "value", None)
@@ -867,7 +948,23 @@ def _drive(case: dict) -> dict:
                         ent["t_ret"] = VClock.t
                         await mark(f"after_send{ent['n']}")
 
-                    await asyncio.gather(*[asyncio.ensure_future(one(ents[j], k)) for j, k in zip(b["order"], b["pre"])])
+                    if not crash:
+                        await asyncio.gather(*[asyncio.ensure_future(one(ents[j], k)) for j, k in zip(b["order"], b["pre"])])
+                    else:
+                        # crash cases: the senders that meet the crashed release arrive at their generated instants; a sender that has
+                        # not returned CRASH_GRACE after (the later of) the crash timeout and the last arrival is given up (t_ret None)
+                        delays = list(crash["delay"]) if (met_crash and len(crash["delay"]) == len(b["pre"])) else [None] * len(b["pre"])
+                        if met_crash:
+                            obs["crash_met_by"] = [e["n"] for e in ents]
+                            obs["crash_t_begin"] = t_begin
+                        tasks = [asyncio.ensure_future(one(ents[j], k, d)) for j, k, d in zip(b["order"], b["pre"], delays)]
+                        give_up = (max(t_begin + CT + 1.0, t_burst + 60.0) if met_crash else t_burst) + CRASH_GRACE
+                        _, pending = await asyncio.wait(tasks, timeout=max(give_up - VClock.t, 0.001))
+                        for t in pending:
+                            t.cancel()
+                        await asyncio.gather(*tasks, return_exceptions=True)
+                        if pending:
+                            break
                 # wait until every reply of this position was processed (body returned), or give up at the horizon
                 while VClock.t < H and not all(any(x["step"] == "on_reply" and x["n"] == e["n"] and x["exit"] == "returned" for x in log["body"]) for e in ents):
                     ev = asyncio.Event()
@@ -968,6 +1065,10 @@ def run_case(case: dict) -> CaseResult:
     # bodies started by an internal timed wake-up: a retried attempt, the re-run of a step whose waiter timed out
     woke = [b for b in body if (b["step"] == "watch" and b["exit"] == "timed_out") or b["attempt"] > 0]
 
+    # RELEASER CRASH (case["crash"]): the injected death of the releasing replica, if the run got that far
+    crashed = obs.get("crash")
+    CT = float(_m["idle_mod"].CRASH_TIMEOUT_SECONDS)
+
     def released_at(t: float) -> bool:
         for e in idle_ends:
             restart = min((x["t"] for x in obs["starts"] if x["k"] > e["k"]), default=INF)
@@ -1019,6 +1120,8 @@ def run_case(case: dict) -> CaseResult:
         if not any(t0 - TOL <= e["t"] <= t0 + 1.0 for e in idle_ends):
             r.v("idle_run_not_released", stage="run_still_in_memory", idle_for=round(nxt - a, 4), idle_timeout=I, after_timed_wakeup=after_wake)
             continue
+        if crashed is not None and abs(t0 - crashed["t_begin"]) <= TOL:
+            continue  # the releaser of this release was killed before its releasing->released write: nothing after that point is owed
         if not any(t0 - TOL <= c["t"] <= t0 + 1.0 + L for c in completes):
             r.v("idle_run_not_released", stage="lifecycle_not_released", idle_for=round(nxt - a, 4), idle_timeout=I, after_timed_wakeup=after_wake)
             continue
@@ -1037,8 +1140,15 @@ def run_case(case: dict) -> CaseResult:
     n_reload_ok = 0
     hung = [s for s in sends if s["t_ret"] is None and not s["error"]]
     if hung:
+        extra = {}
+        if crashed is not None:
+            # a sender that met the release of a crashed replica: given up CRASH_GRACE after the stuck row passed the crash timeout
+            t_out = crashed["t_begin"] + CT
+            extra = {"releaser_crashed": True, "first_call_before_crash_timeout": hung[0]["t"] <= t_out + TOL,
+                     "polls_after_crash_timeout": len([x for x in obs["lock"] if x["op"] == "try_begin_resume" and x["res"] == "releasing" and x["t"] > t_out + TOL]),
+                     "senders_given_up": len(hung)}
         r.v("send_never_returned", n=hung[0]["n"], state_before=hung[0]["state_before"], concurrent_senders=hung[0].get("burst", 1),
-            resume_calls=len(obs["resumes"]), lifecycle=marks[-1]["state"] if marks else None)
+            resume_calls=len(obs["resumes"]), lifecycle=marks[-1]["state"] if marks else None, **extra)
     for s in sends:
         if s["state_before"] in ("released", "releasing") and not s["error"] and s["t_ret"] is not None:
             after = next((k for k in marks if k["tag"] == f"after_send{s['n']}"), None)
@@ -1081,6 +1191,11 @@ def run_case(case: dict) -> CaseResult:
                 r.v("resume_of_unreleased_run", resume_calls=len(calls), grants=len(grants), outcome=calls[0]["outcome"])
                 break
             continue
+        if crashed is not None and not hung and abs(lock_log[i0]["t"] - crashed["t_begin"]) <= TOL and obs.get("crash_met_by") and not grants:
+            # the release of the crashed replica: senders arrived and returned, yet nobody took the stuck run over
+            r.v("crashed_release_never_taken_over", senders=len(obs["crash_met_by"]), resume_calls=len(calls),
+                lifecycle=marks[-1]["state"] if marks else None)
+            break
         if len(calls) > 1 or len(grants) > 1:
             r.v("released_run_resumed_twice", release_index=k - 1, resume_calls=len(calls), ownership_grants=len(grants),
                 outcomes=[x["outcome"] for x in calls][:3], same_instant=len({x["t"] for x in calls}) == 1,
@@ -1150,6 +1265,26 @@ def run_case(case: dict) -> CaseResult:
         r.classes.append("send_" + gk + "_deadline")
     if any(s["state_before"] == "releasing" for s in sends):
         r.classes.append("send_while_releasing")
+    if case.get("crash"):
+        r.classes.append("crash_case")
+        if crashed is None:
+            r.classes.append("crash_not_reached")
+        else:
+            t_out = crashed["t_begin"] + CT
+            met = [s for s in sends if s["n"] in (obs.get("crash_met_by") or [])]
+            r.classes.append(f"releaser_crashed_on_release_{crashed['release']}")
+            pollers = [s for s in met if s["t"] <= t_out + TOL]  # first call while the stuck row is not older than the crash timeout: they poll
+            late = [s for s in met if s["t"] > t_out + TOL]  # first call after it
+            across = [s for s in pollers if s["t_ret"] is None or s["t_ret"] > t_out + TOL]
+            if across:
+                r.classes.append(f"crash_{len(across)}_senders_polling_across_crash_timeout")
+            if late:
+                r.classes.append("crash_sender_first_call_after_crash_timeout")
+            if across and not late:
+                r.classes.append("crash_only_pollers_can_take_over")
+            took = [x for x in obs["resumes"] if x["t"] > crashed["t_begin"] + TOL]
+            if took:
+                r.classes.append("crashed_release_taken_over" + ("_by_late_sender" if any(abs(s["t"] - took[0]["t"]) <= TOL for s in late) else "_by_poller"))
     if any(w >= I for w in case["work"]):
         r.classes.append("work_not_shorter_than_timeout")
     r.nontrivial = n_reload_ok > 0 and fin.get("type") == "GStop"
